@@ -248,6 +248,15 @@ HARNESSES = {
         "sources": _chan_sources,
         "engines": ["rc", "rp", "en"],
         "extras": {"C01": ["chan_exhaustive"], "C02": ["chan_exhaustive"], "C03": ["chan_exhaustive"]},
+        # integration part of C02 / C03: the same promises seen from the channel's users inside the running
+        # runtime (harness rt with VH_FOCUS=C02|C03): a region a consumer holds does not change; a source
+        # blocked in channel_write_map is always released by consumption, stop, abort or a device fault
+        "also": {"C02": {"harness": "rt", "quick": {"rc_cases": 500, "rc_size": 40}, "thorough": {"rc_cases": 10000, "rc_size": 60}},
+                 "C03": {"harness": "rt", "quick": {"rc_cases": 500, "rc_size": 40}, "thorough": {"rc_cases": 10000, "rc_size": 60}}},
+        "rules": {"C02": "a write placed when free space was < 2*n with a reader lagging or holding a mapping, or a write ending exactly at the slowest cursor / at the buffer end; "
+                         "integration part (harness rt): a consumer held a region while the source kept writing",
+                  "C03": "the writer was observed asleep inside write_map and was released (by an unmap, a refusal, a refused map-while-mapped); "
+                         "integration part (harness rt): the source thread was seen asleep in channel_write_map and the acquisition was ended by stop, abort or a device fault"},
         "quick": {"rc_cases": 100000, "rc_size": 60},
         "thorough": {"rc_cases": 2000000, "rc_size": 120},
     },
